@@ -57,7 +57,7 @@ var variants = []variant{{2, "rule-a"}, {7, "rule-b"}}
 
 var fillerPool = func() []string {
 	var p []string
-	for i := 0; i < 24; i++ {
+	for i := 0; i < 96; i++ {
 		p = append(p, fmt.Sprintf("filler-%02d", i))
 	}
 	return p
@@ -141,6 +141,11 @@ type traceModel struct {
 	kept        variant // last recorded
 	droppedEver bool
 	mustDropped bool // a dropped record reached the filter and no generation has been filled since
+	// heldBy: the filter generations that received the trace's dropped record when it was drained
+	// (current and, once started, future). Retention across rotation: as long as one of them has never
+	// been filled to capacity, the record cannot legitimately be gone — the two-generation mechanism
+	// only ever discards a generation that is full.
+	heldBy []any
 }
 
 type model struct {
@@ -318,11 +323,40 @@ func exec3(r *ev.Run, nIDs int, h []event, again *bool) (string, string, *seqx.F
 			s.c.Record(&ktrace{id: tid(e.T)}, false, "")
 			m.tr[e.T].droppedEver = true
 			m.queue = append(m.queue, tid(e.T))
-		case "fill":
-			// the first fillN pool names that are in neither generation nor queued: a function of the state
+		case "fill", "topup":
+			// the first pool names that are in neither generation nor queued: a function of the state.
+			// "fill" adds a batch of fillN; "topup" adds ONE name chosen so that (given the bucket occupancy of
+			// both generations and an empty queue) it needs no eviction — the single-step filler that lets a
+			// generation be topped up exactly to its capacity.
+			want := fillN
+			if e.Op == "topup" {
+				want = 1
+			}
+			fits := func(n string) bool {
+				if e.Op != "topup" {
+					return true
+				}
+				if len(m.queue) > 0 {
+					return false // occupancy is only known for what is already in the filters
+				}
+				for _, g := range gens {
+					nb := len(g.layout) / 8
+					occ := make([]int, nb)
+					for i := 0; i+1 < len(g.layout); i += 2 {
+						if g.layout[i] != 0 || g.layout[i+1] != 0 {
+							occ[i/8]++
+						}
+					}
+					i1, i2 := probe(uint(float64(nb)*3.6), n)
+					if occ[i1] >= 4 && occ[i2] >= 4 {
+						return false
+					}
+				}
+				return true
+			}
 			var names []string
 			for _, n := range fillerPool {
-				if len(names) == fillN {
+				if len(names) == want {
 					break
 				}
 				if cache.VerifC31FilterHas(pre.Cur, n) || cache.VerifC31FilterHas(pre.Fut, n) {
@@ -332,11 +366,14 @@ func exec3(r *ev.Run, nIDs int, h []event, again *bool) (string, string, *seqx.F
 				for _, x := range m.queue {
 					q = q || x == n
 				}
-				if !q {
+				if !q && fits(n) {
 					names = append(names, n)
 				}
 			}
-			if len(names) < fillN {
+			if len(names) < want {
+				if e.Op == "topup" {
+					return "", "topup:no-fitting-name", nil // both buckets of every candidate are full (or the queue is not empty): a no-op
+				}
 				ev.Harness("filler pool exhausted")
 			}
 			for _, n := range names {
@@ -403,6 +440,9 @@ func exec3(r *ev.Run, nIDs int, h []event, again *bool) (string, string, *seqx.F
 				case occ[i2] < 4:
 					occ[i2]++
 				default:
+					if os.Getenv("VERIF_HISTORY") != "" {
+						fmt.Printf(" eviction predicted at step %d %v: id=%s buckets=(%d,%d) occupancy=%v inserted=%v\n", step, e, id, i1, i2, occ, inserted)
+					}
 					return exclude("cuckoo_eviction")
 				}
 			}
@@ -418,6 +458,9 @@ func exec3(r *ev.Run, nIDs int, h []event, again *bool) (string, string, *seqx.F
 			for i := range m.tr {
 				if tid(i) == id {
 					m.tr[i].mustDropped = true
+					for _, g := range gens {
+						m.tr[i].heldBy = append(m.tr[i].heldBy, g.h)
+					}
 				}
 			}
 		}
@@ -467,6 +510,16 @@ func exec3(r *ev.Run, nIDs int, h []event, again *bool) (string, string, *seqx.F
 			}
 			where := fmt.Sprintf("step %d %v answered %v", step, e, ans)
 			kind := e.Op
+			unfilledHolder := false
+			for _, g := range t.heldBy {
+				if !m.filled[g] {
+					unfilledHolder = true
+				}
+			}
+			if unfilledHolder && !(ans.found && !ans.kept) {
+				return "", "", &seqx.Failure{Sig: "dropped:lost-although-a-generation-that-received-it-was-never-filled:" + kind,
+					What: where + " although a filter generation that received its dropped record has never been filled to capacity (a not-yet-full generation was discarded: retention across rotation broken)"}
+			}
 			switch {
 			case ans.found && !ans.kept: // "dropped"
 				if !t.droppedEver {
@@ -536,7 +589,24 @@ func exec3(r *ev.Run, nIDs int, h []event, again *bool) (string, string, *seqx.F
 	// expired entries of the recently-dropped set behave alike (Contains is false, clean-up removes them)
 	fmt.Fprintf(&b, "recent=%s|", strings.Join(s.ctl.Recent(now), ","))
 	for i, t := range m.tr {
-		fmt.Fprintf(&b, "%d:%v%v%v%v;", i, t.keptEver, t.kept, t.droppedEver, t.mustDropped)
+		// which LIVE generations received the record, and whether some generation that received it was
+		// discarded before it was ever full (that promise can then never be released): both decide the
+		// future verdicts of the retention-across-rotation clause
+		held := ""
+		lostUnfilled := false
+		for _, g := range t.heldBy {
+			switch g {
+			case fin.Cur:
+				held += "c"
+			case fin.Fut:
+				held += "f"
+			default:
+				if !m.filled[g] {
+					lostUnfilled = true
+				}
+			}
+		}
+		fmt.Fprintf(&b, "%d:%v%v%v%v%s%v;", i, t.keptEver, t.kept, t.droppedEver, t.mustDropped, held, lostUnfilled)
 	}
 	for _, l := range m.lrus {
 		fmt.Fprintf(&b, "%v", l.order)
@@ -586,6 +656,26 @@ func main() {
 		concurrentPart(r) // worker process of the E3 part
 	}
 	nIDs := ev.Pick(r, 4, 6)
+	if hs := os.Getenv("VERIF_HISTORY"); hs != "" {
+		// debugging / replay aid: run one history, e.g. "fill;maintain;recD0;drain;resizeD;trace0"
+		var h []event
+		for _, w := range strings.Split(hs, ";") {
+			e := event{Op: strings.TrimRight(w, "0123456789")}
+			if n := strings.TrimPrefix(w, e.Op); n != "" {
+				fmt.Sscan(n, &e.T)
+			}
+			h = append(h, e)
+		}
+		c, o, f := exec(r, nIDs, h)
+		_, ex := excluded.Load(hkey(h))
+		fmt.Printf("history %v\n canon=%q\n outcome=%q\n failure=%+v excluded=%v\n", h, c, o, f, ex)
+		for i := 1; i <= len(h); i++ {
+			if why, ex := excluded.Load(hkey(h[:i])); ex {
+				fmt.Printf(" prefix %d excluded: %v\n", i, why)
+			}
+		}
+		os.Exit(0)
+	}
 	depth := ev.Pick(r, 7, 8)
 	if d := os.Getenv("VERIF_DEPTH"); d != "" {
 		fmt.Sscan(d, &depth)
@@ -593,6 +683,7 @@ func main() {
 	if d := os.Getenv("VERIF_IDS"); d != "" {
 		fmt.Sscan(d, &nIDs)
 	}
+	concurrentPart(r) // the (cheap) E3 part first: a deadline under load then cuts the deep end of the BFS, not this
 	seqx.Explore(r, seqx.Scenario[event]{
 		Name:     "sentcache",
 		Enabled:  func(h []event) []event { return enabled(nIDs, h) },
@@ -600,7 +691,26 @@ func main() {
 		Expand:   func(h []event) bool { _, ex := excluded.Load(hkey(h)); return !ex },
 		MaxDepth: depth, Workers: 16,
 	})
-	concurrentPart(r)
+	// Directed family for the dropped side: only one trace ID and the events that move the two filter
+	// generations (fill, maintain, drain, resize of the dropped capacity, clock), so that histories such as
+	// "future generation started, record, resize, fill, rotate, look up" (9-10 events) are inside the bound.
+	dd := ev.Pick(r, 9, 12)
+	seqx.Explore(r, seqx.Scenario[event]{
+		Name: "dropped-side",
+		Enabled: func(h []event) []event {
+			// trace 0 is the record under observation; `fill` adds three fillers, `topup` exactly one that fits
+			out := []event{{Op: "recD", T: 0}, {Op: "fill"}, {Op: "topup"}, {Op: "maintain"}, {Op: "resizeD"}}
+			for _, e := range h {
+				if e.Op == "recD" && e.T == 0 {
+					return append(out, event{Op: "trace", T: 0})
+				}
+			}
+			return out
+		},
+		Exec:     func(h []event) (string, string, *seqx.Failure) { return exec(r, nIDs, h) },
+		Expand:   func(h []event) bool { _, ex := excluded.Load(hkey(h)); return !ex },
+		MaxDepth: dd, Workers: 16,
+	})
 	r.Set("traces_validated_against_impl", r.Count("transitions"))
 	for _, k := range []string{"excluded_filter_false_positive", "excluded_add_queue_overflow", "excluded_cuckoo_eviction"} {
 		r.Add(k, 0)
@@ -609,6 +719,7 @@ func main() {
 		"filler_batch": fillN, "kept_variants": fmt.Sprint(variants), "id_order": "trace-(i+1) is first recorded only after trace-i", "advance": "3s+1ns"})
 	r.Assume("'consulted' is read in every way at once: a kept decision is guaranteed only if it is among the K most recent whether or not CheckTrace counts as a consultation and whether or not a consultation answered 'dropped' refreshes recency (4 LRU readings, intersection)")
 	r.Assume("a dropped record counts from the moment it left the add queue (the queue is asynchronous by design); while it is only queued either answer is accepted, for CheckSpan as well as CheckTrace")
+	r.Assume("retention across rotation (mechanism anchor 'two-generation filter', why_tests_cant 'retention across filter rotation'): in addition to the weak reading below, a dropped record must still be answered 'dropped' while any generation that received it has never been filled to capacity; this holds on the unchanged tree because Maintain only ever discards the full current generation")
 	r.Assume("'filled to capacity since the record': some filter generation has, at or after the record, held at least as many entries as the DroppedSize configured when that generation was created; from then on either answer is accepted for every earlier record")
 	r.Assume("branches with a cuckoo filter false positive, an add-queue overflow, or an insert that displaced stored fingerprints (library picks victims with runtime.fastrand) are skipped and counted as excluded_*")
 	r.Assume("canonical state = capacities, real kept LRU (order, rate, reason), both filter bucket layouts with their creation capacity, next capacity, add-queue contents, recently-dropped entries as offsets from now (expired ones merged), per-trace model flags, the four model LRU orders; filler IDs are chosen as a function of that state")
